@@ -13,7 +13,7 @@ From Coq Require Import ZArith List Bool Arith Lia.
 From V.C03 Require Import PyAst Builder.
 From V.C09 Require Import Analysis Spec.
 From V.C08 Require Import CfgCheck Spec ProofsBase ProofsCheck ProofsExact ProofsClosed ProofsTop
-  Bridge ProofsBridgeA ProofsBridgeB ProofsBridgeC ProofsBridgeD ProofsBridgeE ProofsBridgeF.
+  Bridge ProofsBridgeA ProofsBridgeB ProofsBridgeC ProofsBridgeD ProofsBridgeE ProofsBridgeF ProofsBridgeG.
 Import ListNotations.
 
 Notation facts_of g E0 glob s1 s2 := (analyze g (keys E0) glob s1 s2).
@@ -109,15 +109,19 @@ Print Assumptions syntactic_paths_are_cfg_walks.
 
 (** [undef_exact], syntactic form, direction "violation => rejected": if some syntactic path
     reaches a read of x ([last]) and no item before it ([pre]) assigns x, and x is not an input
-    but must be in scope, then check_cfg on the built graph raises a not-defined error.
-    ([wf_ecfg] of the built graph is checked by the harness on every CFG; not proved here.) *)
+    but must be in scope, then check_cfg on the built graph raises a not-defined error. *)
+Theorem built_graph_wf : forall p rn g s, cf_stmts p = true -> build p rn = BOk g s -> wf_ecfg (ecfg_of g).
+Proof. exact build_wf. Qed.
+Print Assumptions built_graph_wf.
+
 Theorem syntactic_undef_rejected : forall p rn g s x pre last o E0 glob s1 s2,
-  cf_stmts p = true -> build p rn = BOk g s -> wf_ecfg (ecfg_of g) ->
+  cf_stmts p = true -> build p rn = BOk g s ->
   spath_l p (pre ++ [last]) o -> nodef x pre -> reads_first x (ev_item last) ->
   lookup x E0 = None -> needs_def (facts_of (ecfg_of g) E0 glob s1 s2) x = true ->
   exists e, check_cfg (ecfg_of g) E0 glob s1 s2 = Rej e /\ is_undef e.
 Proof.
-  intros p rn g s x pre last o E0 glob s1 s2 F B W X N R L Nd.
+  intros p rn g s x pre last o E0 glob s1 s2 F B X N R L Nd.
+  pose proof (build_wf p rn g s F B) as W.
   destruct (syntactic_path_to_cfg_path p rn g s x pre last o F B X N R) as (u&Hu&Hr&Hf).
   apply (undef_complete (ecfg_of g) E0 glob s1 s2 W x u Nd). unfold undef_use. auto.
 Qed.
@@ -152,17 +156,45 @@ Print Assumptions syntactic_undef_exact.
 (** [undef_sound], syntactic form: when the reported use is reached along real edges, the
     error is explained by a syntactic path of the source. *)
 Theorem syntactic_undef_sound : forall p rn g s E0 glob s1 s2 e k x u,
-  cf_stmts p = true -> build p rn = BOk g s -> wf_ecfg (ecfg_of g) ->
+  cf_stmts p = true -> build p rn = BOk g s ->
   check_cfg (ecfg_of g) E0 glob s1 s2 = Rej e ->
   In (k, x, u) (report_cands (ecfg_of g) (facts_of (ecfg_of g) E0 glob s1 s2) e) ->
   rreach (ecfg_of g) x u ->
   exists pre last o, spath_l p (pre ++ [last]) o /\ nodef x pre /\ reads_first x (ev_item last).
 Proof.
-  intros p rn g s E0 glob s1 s2 e k x u F B W H Hin Hr.
+  intros p rn g s E0 glob s1 s2 e k x u F B H Hin Hr.
+  pose proof (build_wf p rn g s F B) as W.
   destruct (undef_sound (ecfg_of g) E0 glob s1 s2 e k x u W H Hin) as (_&(_&_&_&Rf)&_).
   exact (cfg_path_to_syntactic_path p rn g s x u F B Hr Rf).
 Qed.
 Print Assumptions syntactic_undef_sound.
+
+(** [undef_exact] at the level of the SOURCE, for programs without dead code (the built graph
+    has no dummy edge): check_cfg raises a not-defined error iff some syntactic path reaches a
+    read of a variable that must be in scope, is not an input, and is assigned nowhere before
+    on that path. *)
+Lemma no_dummy_rreach : forall g x u, (forall b, e_dsucc (eblk g b) = []) -> reach_nodef g x u -> rreach g x u.
+Proof.
+  intros g x u D H. induction H as [|p b H IH Lp Na Hb]; [constructor|].
+  apply rr_step with p; auto. unfold flow in Hb. rewrite D, app_nil_r in Hb. exact Hb.
+Qed.
+
+Theorem syntactic_undef_exact_live : forall p rn g s E0 glob s1 s2,
+  cf_stmts p = true -> build p rn = BOk g s ->
+  (forall b, e_dsucc (eblk (ecfg_of g) b) = []) ->
+  ((exists x pre last o, needs_def (facts_of (ecfg_of g) E0 glob s1 s2) x = true /\ lookup x E0 = None /\
+      spath_l p (pre ++ [last]) o /\ nodef x pre /\ reads_first x (ev_item last)) <->
+   (exists e, check_cfg (ecfg_of g) E0 glob s1 s2 = Rej e /\ is_undef e)).
+Proof.
+  intros p rn g s E0 glob s1 s2 F B D. split.
+  - intros (x&pre&last&o&Nd&L&X&N&R).
+    exact (syntactic_undef_rejected p rn g s x pre last o E0 glob s1 s2 F B X N R L Nd).
+  - intros H. apply (undef_exact (ecfg_of g) E0 glob s1 s2 (build_wf p rn g s F B)) in H.
+    destruct H as (x&u&Nd&(L&Hu&Hr&Hf)).
+    destruct (cfg_path_to_syntactic_path p rn g s x u F B (no_dummy_rreach _ _ _ D Hr) Hf) as (pre&last&o&X&N&R).
+    exists x, pre, last, o. auto.
+Qed.
+Print Assumptions syntactic_undef_exact_live.
 
 (** * the hypotheses are satisfiable: three small programs (variables c=0 x=1 y=2; types bool=1 int=2 float=3) *)
 Lemma wf_by_cases : forall g, 0 < length g ->
@@ -243,7 +275,7 @@ Proof.
     - left. exists [IStmt (SExpr (EName (VU 1)))], []. split; auto. split; [left; auto|auto]. }
   split; auto. split; auto. split; auto. split; auto.
   apply (syntactic_undef_rejected ex_src true g s 2 [ICond (EName (VU 0))] (IStmt (SExpr (EName (VU 1)))) ONorm
-           [(0, 1)] [] [] [] F B W X).
+           [(0, 1)] [] [] [] F B X).
   - intros it [<-|[]]. simpl. apply uses_no_assign.
   - simpl. auto.
   - reflexivity.
